@@ -139,7 +139,8 @@ example : ∀ s, encodeTextF (exFig exFigs) = .ok s → wellFormed s = true :=
 
 /-- FINDING (empty output).  A figure-only document without figures (`rtf_figure.figures` empty) is in the domain, the
 encoder accepts it and returns the EMPTY string — not an RTF document (no `{\rtf1`, no group).  The hypothesis
-`d.figs ≠ []` of `C01_encodeTextF_wellformed` cannot be dropped. -/
+`d.figs ≠ []` of `C01_encodeTextF_wellformed` cannot be dropped.  (rtflite now refuses such a document at construction
+— repo fix 359e88c — so this post-construction state is no longer reachable through the constructors.) -/
 theorem C01encmore_finding_no_figures :
     inDomainFig (exFig []) = true ∧
     (match encodeTextF (exFig []) with
@@ -147,15 +148,16 @@ theorem C01encmore_finding_no_figures :
      | .error _ => false) = true := by decide +kernel
 
 open Props.C01enc in
-/-- FINDING (`\\cellx0`, inherited from the table emitter).  A source rendered as table with `col_rel_width = [1, 100000]`:
-positive widths, admissible texts, table width 6.25in — the single cell ends at `round(1440·6.25/100001) = 0` twips, the
-encoder writes `\\cellx0`.  Only the `firstOk` clause of `sourceOkF` fails; it cannot be dropped. -/
-theorem C01encmore_finding_source_cellx0 :
+/-- The former finding `\\cellx0` on the figure path is repaired in rtflite (a table-rendered footnote / source is one
+cell ending at the LAST boundary of its width vector, i.e. the table's right edge): a source rendered as table with
+`col_rel_width = [1, 100000]` now prints to well-formed RTF.  It lies outside `InDomainFig` only because the `firstOk`
+clause of `sourceOkF` is sufficient, not necessary, for this component. -/
+example :
     let d : FDoc := { exFig exFigs with
       source := some { text := some "src".toList, asTable := true, colRelWidth := some [1, 100000], attrs := exTbl } }
     posW [1, 100000] = true ∧ footTxtOk d.source = true ∧ inDomainFig d = false ∧
     (match encodeWithF d with
-     | .ok (some g, _) => !docOk g && !wellFormed (printDoc g)
+     | .ok (some g, _) => docOk g && wellFormed (printDoc g)
      | _ => false) = true := by decide +kernel
 
 end Props.C01encmore
